@@ -67,6 +67,19 @@ func main() {
 			if len(os.Args) > 2 && os.Args[2] == "uwrap" {
 				r = ruleUwrap(c, inFiles("encoding.go"))
 			}
+			if len(os.Args) > 2 && os.Args[2] == "wide" {
+				r = &RuleResult{Rule: "WIDE"}
+				all := func(string) bool { return true }
+				for _, q := range []*RuleResult{ruleMaskWidth(c, all), ruleNarrowLen(c, all), ruleNarrowWith(c, all, nonNegativeOrder)} {
+					r.Instances = append(r.Instances, q.Instances...)
+					r.Findings = append(r.Findings, q.Findings...)
+				}
+				for _, pk := range []string{"graph", "graph/search", "dawg", "disjoint", "sortints", "ints", "comb", "itertools", "tsp"} {
+					q := ruleSignConv(c, pk)
+					r.Instances = append(r.Instances, q.Instances...)
+					r.Findings = append(r.Findings, q.Findings...)
+				}
+			}
 			if len(os.Args) > 2 && os.Args[2] == "fixed" {
 				r = &RuleResult{Rule: "FIXEDARRAY"}
 				for _, pk := range []string{"graph", "graph/search", "dawg", "disjoint", "sortints", "ints", "comb", "itertools", "tsp"} {
